@@ -132,7 +132,9 @@ func VerifC16_Shutdown(nconn, nreq, failMask, slow, late, trig int) {
 	default:
 		verifBlock(func() bool {
 			answered := 0
-			for _, c := range conns[:n] {
+			// all connections: the late one may be accepted (and take the first
+			// hook slot) before the ones queued at the start
+			for _, c := range conns {
 				answered += len(c.outbox)
 			}
 			return answered >= nreq*w.connects && w.connects+w.connectFails >= n || w.slow && w.running > 0
